@@ -288,6 +288,9 @@ fn check_enrich(background: &[u32], sample: &[u32], stats: &mut Stats) -> CheckR
         if bg.iter().any(|t| *t > 500) {
             stats.label("background-with-inner-nodes");
         }
+        if sm.is_empty() {
+            stats.label("empty-sample");
+        }
         Ok(())
     })
 }
@@ -366,7 +369,8 @@ fn strategy() -> BoxedStrategy<Case> {
         let all: Vec<u32> = if leaves_only { (1..=N_LEAVES).collect() } else { (1..=N_LEAVES).chain(501..=520).chain([ROOT]).collect() };
         let n_bg = n_bg.min(all.len());
         let background = subset(&all, &k1, n_bg);
-        let n = 1 + pick(np, n_bg);
+        // sample sizes 1..=N; one case in 64 the empty sample (no record may be reported)
+        let n = if np % 64 == 0 { 0 } else { 1 + pick(np, n_bg) };
         let sample = subset(&background, &k2, n);
         Case::Enrich { background, sample }
     });
@@ -402,7 +406,7 @@ impl Property for C06 {
         }
     }
     fn required_labels(&self, _tier: Tier) -> Vec<&'static str> {
-        vec!["nontrivial", "N<=170", "N>170", "N~20000", "large:p<1e-12", "large:k-far-below-mean", "k-sweep>=3", "background-with-inner-nodes"]
+        vec!["nontrivial", "N<=170", "N>170", "N~20000", "large:p<1e-12", "large:k-far-below-mean", "k-sweep>=3", "background-with-inner-nodes", "empty-sample"]
     }
     fn run_generated(&self, _tier: Tier, seed: u64, n: u64, stats: &mut Stats) -> Option<(Value, Failure)> {
         run_typed(strategy(), seed, n, stats, check)
